@@ -72,7 +72,7 @@ class FicksLawOptimization(OptimizationAbstract):
             tttt = np.linalg.norm(best_pos - pos)
             jj = 0 if tttt == 0 else -DD * (best_pos - xm_) / tttt
             drf = np.exp(-jj / tf)
-            ms = np.exp(-best_cost / molecule.cost + self.EPS)
+            ms = np.exp(-best_cost / (molecule.cost + self.EPS))
             qeo = dfg * drf * np.random.random(n_dims)
             return Molecule(**self._init_agent(best_pos + qeo * pos + qeo * (ms * best_pos - pos)).model_dump())
 
@@ -82,7 +82,7 @@ class FicksLawOptimization(OptimizationAbstract):
             tttt = np.linalg.norm(best_pos - pos)
             jj = 0 if tttt == 0 else -DD * (xm - xm_) / tttt
             drf = np.exp(-jj / tf)
-            ms = np.exp(-fsss / molecule.cost + self.EPS)
+            ms = np.exp(-fsss / (molecule.cost + self.EPS))
             qg = dfg * drf * np.random.random(n_dims)
             return Molecule(**self._init_agent(g_best + qg * pos + qg * (ms * best_pos - pos)).model_dump())
 
